@@ -621,6 +621,39 @@ def main(tier, seed, replay=None):
     hist_cov = c18_hist.judge(run, hists, houts, hresults)
     hist_cov["wall_s"] = t_hist
     hist_cov["wall_s_single_sandbox_streams_alongside"] = t_c
+    # pattern fallbacks inside a sandbox (raw source: the sandbox model's source language has no pattern fallbacks): a default of
+    # a pattern item is evaluated in the scope of the sandboxed source, so a default that names //os.file or //net.http.get must
+    # fail like the bare name does.  Oracle = the property text: no file / network function in the result, no effect.
+    pat_cov = {}
+    if not replay or (isinstance(rp.get("case"), dict) and rp["case"].get("stream") == "pattern-fallback"):
+        PT = ["let (a?: (b?: f: %s): ()) = (); f", "let (a?: f: %s) = (); f", "(\\(a?: (b?: f: %s): ()) f)(())", "cond () {(a?: (b?: f: %s): ()): f}",
+              "let {\"k\"?: f: %s} = {}; f", "let {\"k\"?: (b?: f: %s): ()} = {}; f", "let (a?: (b?: f: %s): ()) = (); f(\"data.txt\")",
+              "let (a?: (b?: (c?: f: %s): ()): ()) = (); f", "let (a?: {\"k\"?: f: %s}: {}) = (); f", "let [(a?: (b?: f: %s): ())] = [()]; f",
+              "let (a: (b?: (c?: f: %s): ())) = (a: ()); f", "() -> \\(a?: (b?: f: %s): ()) f", "{()} => \\(a?: (b?: f: %s): ()) f",
+              "let (a?: (b?: f: %s): ()) = (a: ()); f", "let (a?: (b?: f: %s): (b: 1)) = (); f", "(a: 1) -> \\(a: x, c?: (d?: f: %s): ()) f"]
+        WR = [("safe", "%s"), ("top", "//eval.eval(`%s`)"), ("top", "//eval.evaluator((stdlib: ())).eval(`%s`)"),
+              ("top", "//eval.evaluator((stdlib: (str: //str))).eval(`%s`)"), ("top", "//eval.eval(\"//eval.eval(`%s`)\")"),
+              ("safe", "//eval.eval(`%s`)")]
+        preqs = []
+        for t in PT:
+            for target in ("//os.file", "//net.http.get", "//os"):
+                for mode, wrap_ in WR:
+                    inner = t % target
+                    if "\"" in inner and "\"//eval" in wrap_:
+                        continue
+                    preqs.append({"id": len(preqs), "mode": mode, "src": wrap_ % inner})
+        if replay:
+            preqs = [{"id": 0, "mode": rp["case"]["mode"], "src": rp["case"]["text"]}]
+        pouts, _, _ = run_harness(vh, "c18", preqs)
+        pat_cov = {"programs": len(preqs), "status": {}, "failing": 0}
+        for q in preqs:
+            o = pouts.get(q["id"]) or {"st": "missing"}
+            pat_cov["status"][o.get("st")] = pat_cov["status"].get(o.get("st"), 0) + 1
+            bad = [c for c in (o.get("classes") or []) if c in ("file", "net")]
+            if bad or (o.get("effects") or []):
+                pat_cov["failing"] += 1
+                run.classify_failure(None, {"case": {"stream": "pattern-fallback", "mode": q["mode"], "text": q["src"]}, "observed": o,
+                                            "oracle": "sandboxed source obtained a %s function (or caused an effect) through the default of a pattern item" % "/".join(bad or ["?"])})
     open_sigs = {f["sig"] for f in run.opened}
     hist = {"stream": {}, "mode": {}, "status": {}, "classes_observed": {}, "effects_observed": {}, "quirk_dependent": {}}
     seen, dist, guard_false, incomparable, noted = set(), 0, 0, 0, 0
@@ -721,6 +754,7 @@ def main(tier, seed, replay=None):
             run.classify_failure(KNOWN_EXCEPTIONS.get(key), {"case": cases[0], "observed": o})
     run.cov.update({
         "evaluations": len(cases) + len(tcases) + len(hists), "distinct_nontrivial": dist,
+        "pattern_fallback_stream": pat_cov,
         "evaluator_histories": dict(hist_cov, count=len(hists),
                                     rule="history = let-bound factories / configs / evaluators + an ordered list of uses (evaluator, source, "
                                          "representation); run driven (the harness applies X.eval per use) or inline (one arr.ai program); per use: "
